@@ -289,6 +289,24 @@ def run(ctx: Ctx):
                      "path on which last_read is not refreshed: a connection that is receiving "
                      "bytes (a long message arriving in pieces) is treated as idle, gets a DWR and "
                      "is closed by the watchdog")
+    # ... and already when they ARRIVE: the reader thread may be busy (the request handler of a
+    # plain Application runs on it, a large message takes seconds to decode) while the peer keeps
+    # sending - bytes waiting in the read queue are received bytes
+    aib = pc.methods.get("add_in_bytes")
+    cons_ai = "add_in_bytes:idle-refresh"
+    ctx.inst(cons_ai)
+    if aib is None:
+        ctx.error("PeerConnection.add_in_bytes not found", rule="C11-R5")
+    else:
+        ctx.use(aib)
+        ga = cfg_of(aib)
+        rf = [n for n in ga.nodes if any(A.call_name(c) == "self.reset_last_read" for c in n.calls())]
+        if not rf or not ga.dominated(ga.exit, rf):
+            ctx.fail(cons_ai, aib.loc(), "add_in_bytes (called by the I/O thread for every chunk read "
+                     "from the socket) does not refresh the idle clock: last_read follows what the "
+                     "reader thread has taken from its queue, so a peer that keeps sending while the "
+                     "reader is busy is treated as idle, gets a DWR and is closed with DWA_TIMEOUT "
+                     "although its DWA has arrived")
     rl = pc.methods.get("reset_last_read")
     ctx.inst("PeerConnection.reset_last_read")
     if rl is None or not clock_sources(model, pc.module, rl.node, pc) or "_last_read" not in ast.unparse(rl.node):
